@@ -830,6 +830,11 @@ esl_memtof(const char *p, esl_pos_t n, float *ret_val)
  * Purpose:   If the memory <p> of <n> bytes is convertible 
  *            to a floating point real number by the rules of
  *            atof(), return TRUE; else return FALSE.
+ *
+ *            Leading and trailing whitespace is allowed. As with
+ *            atof(), characters attached to the end of the number
+ *            are tolerated ("25.00;" on a Pfam #=GF GA line), but
+ *            nothing except whitespace and one sign may precede it.
  * 
  * Xref:      easel.c::esl_str_IsReal() for string version.
  */
@@ -844,6 +849,11 @@ esl_mem_IsReal(const char *p, esl_pos_t n)
 
   while (n && isspace((int) *p))     { p++; n--; } /* skip leading whitespace */
   if (n && (*p == '-' || *p == '+')) { p++; n--; } /* skip leading sign */
+
+  /* The number must start here, with a digit or with '.' and a digit:
+   * atof() converts nothing otherwise ("abc1", "--1", "e5", "x.5").
+   */
+  if (! n || ! (isdigit((int) *p) || (*p == '.' && n > 1 && isdigit((int) p[1])))) return FALSE;
 
   /* Examine remainder for garbage. Allowed one '.' and
    * one 'e' or 'E'; if both '.' and e/E occur, '.'
